@@ -22,20 +22,20 @@ var (
 
 type WalkFunc = filepath.WalkFunc
 
-func Base(p string) string                    { return filepath.Base(p) }
-func Clean(p string) string                   { return filepath.Clean(p) }
-func Dir(p string) string                     { return filepath.Dir(p) }
-func Ext(p string) string                     { return filepath.Ext(p) }
-func IsAbs(p string) bool                     { return filepath.IsAbs(p) }
-func Join(elem ...string) string              { return filepath.Join(elem...) }
-func Rel(base, targ string) (string, error)   { return filepath.Rel(base, targ) }
-func Split(p string) (string, string)         { return filepath.Split(p) }
-func SplitList(p string) []string             { return filepath.SplitList(p) }
-func VolumeName(p string) string              { return filepath.VolumeName(p) }
-func Match(pat, name string) (bool, error)    { return filepath.Match(pat, name) }
-func FromSlash(p string) string               { return filepath.FromSlash(p) }
-func ToSlash(p string) string                 { return filepath.ToSlash(p) }
-func EvalSymlinks(p string) (string, error)   { return filepath.EvalSymlinks(p) }
+func Base(p string) string                         { return filepath.Base(p) }
+func Clean(p string) string                        { return filepath.Clean(p) }
+func Dir(p string) string                          { return filepath.Dir(p) }
+func Ext(p string) string                          { return filepath.Ext(p) }
+func IsAbs(p string) bool                          { return filepath.IsAbs(p) }
+func Join(elem ...string) string                   { return filepath.Join(elem...) }
+func Rel(base, targ string) (string, error)        { return filepath.Rel(base, targ) }
+func Split(p string) (string, string)              { return filepath.Split(p) }
+func SplitList(p string) []string                  { return filepath.SplitList(p) }
+func VolumeName(p string) string                   { return filepath.VolumeName(p) }
+func Match(pat, name string) (bool, error)         { return filepath.Match(pat, name) }
+func FromSlash(p string) string                    { return filepath.FromSlash(p) }
+func ToSlash(p string) string                      { return filepath.ToSlash(p) }
+func EvalSymlinks(p string) (string, error)        { return filepath.EvalSymlinks(p) }
 func WalkDir(root string, fn fs.WalkDirFunc) error { return filepath.WalkDir(root, fn) }
 
 func Abs(p string) (string, error) {
